@@ -5,8 +5,9 @@ import vf
 
 SPEC = {
     "uses_gen": False,
+    "precompile_data": True,
     "cmd": "c23",
-    "budget": (10, 300),
+    "budget": (6, 300),
     "header": "From Sky Require Import Base.Uint Model.Truncate.\nFrom Coq Require Import List.\nImport ListNotations.\nOpen Scope Z_scope.",
     "corr": "C23_corr.v",
     "prop": "C23_prop.v",
@@ -28,3 +29,15 @@ SPEC = {
 
 def run(ctx):
     vf.standard_run(ctx, SPEC)
+
+
+def replay(ctx, path):
+    """Re-run the stored case: the harness is deterministic in (seed, tier), so the
+    generation is repeated with the seed / tier recorded in the replay file and
+    evaluated again (the failing case reappears at the same index)."""
+    import json
+    d = json.load(open(path))
+    ctx.seed = int(d.get("seed", ctx.seed))
+    ctx.tier = d.get("tier", ctx.tier)
+    run(ctx)
+    return vf.finish(ctx)
